@@ -823,7 +823,40 @@ func (eng *Engine) searchRebind(key string, con *Contract, bound int, r *FuncRes
 			return g.r, g.rb
 		}
 	}
+	// no assignment proves everything (the function may carry an obligation that fails for its own reason, e.g. an open known
+	// finding): take the assignment under which the fewest obligations fail, so what is reported is a named obligation and not
+	// a missing name.  Any well-typed assignment is sound -- the re-bound clauses are proof scaffolding, each is itself proved.
+	best, bestN := -1, 0
+	for i, g := range good {
+		if n := g.r.undischarged(); best < 0 || n < bestN {
+			best, bestN = i, n
+		}
+	}
+	if best >= 0 {
+		return good[best].r, good[best].rb
+	}
 	return nil, nil
+}
+
+// undischarged counts the obligation names that are not proved
+func (r *FuncResult) undischarged() int {
+	bad := map[string]bool{}
+	alive := map[string]bool{}
+	for _, o := range r.Obs {
+		if (o.Cover || o.Canary) && o.Res.Status != "unsat" {
+			alive[o.Name] = true
+		}
+	}
+	for _, o := range r.Obs {
+		if o.Cover || o.Canary {
+			if !alive[o.Name] {
+				bad[o.Name] = true
+			}
+		} else if o.Res.Status != "unsat" {
+			bad[o.Name] = true
+		}
+	}
+	return len(bad)
 }
 
 // tryVerifyFunc0: a trial with a candidate binding; a binding of the wrong type may trip the evaluator in any way
@@ -1053,6 +1086,9 @@ func (x *Exec) atReturn(fr *Frame, st *State, rs []Val) {
 		}
 		// lock balance: exported entry points must release what they took
 		for k, h := range st.held {
+			if strings.HasPrefix(k, "A:") {
+				continue // acquisition marks of `opt atomic`
+			}
 			pre := "false"
 			if p, ok := fr.pre.held[k]; ok {
 				pre = p
